@@ -10,6 +10,7 @@ import (
 	"flag"
 	"fmt"
 	"math"
+	"math/big"
 	"os"
 	"os/exec"
 	"sort"
@@ -94,7 +95,7 @@ type SchedOut struct {
 var opMenu = []string{"ScalarBaseMult", "VarTimeDoubleScalarBaseMult", "ScalarMult", "MultiScalarMult", "VarTimeMultiScalarMult",
 	"Add", "BytesRoundTrip", "NewGenerator", "ScalarInvert", "MultByCofactor",
 	"Encode", "ScalarArith", "FieldArith", "NegateSubtract", "CoordsRoundTrip", "Equal",
-	"SetterErrors", "ScalarSweep", "ElementSweep", "MultiMany"}
+	"SetterErrors", "ScalarSweep", "ElementSweep", "MultiMany", "SharedElements"}
 
 func genSchedTrace(base, idx uint64, small bool) (*SchedTrace, sched.Policy, uint64) {
 	seed := prng.Derive(base, "C18", idx)
@@ -133,7 +134,7 @@ func genSchedTrace(base, idx uint64, small bool) (*SchedTrace, sched.Policy, uin
 	if small {
 		nt = 2 + rng.Intn(3)
 	}
-	w := []int{10, 8, 2, 2, 2, 1, 1, 1, 1, 1, 1, 1, 1, 1, 1, 1, 1, 1, 1, 1}
+	w := []int{10, 8, 2, 2, 2, 1, 1, 1, 1, 1, 1, 1, 1, 1, 1, 1, 1, 1, 1, 1, 1}
 	longProgs := !small && rng.Bool(0.15)
 	if longProgs || rng.Bool(0.3) {
 		// swarm: a run that is not about the lazy tables but about overlap inside a few
@@ -192,6 +193,8 @@ func genSchedTrace(base, idx uint64, small bool) (*SchedTrace, sched.Policy, uin
 				op.P = []int{pick()}
 			case "NegateSubtract", "Equal":
 				op.P = []int{pick(), pick()}
+			case "SharedElements":
+				op.P = []int{rng.Intn(np), rng.Intn(np)}
 			case "ScalarArith", "ScalarSweep":
 				op.S = []int{rng.Intn(ns), rng.Intn(ns), rng.Intn(ns)}
 			case "SetterErrors", "ElementSweep":
@@ -243,6 +246,9 @@ func genSchedTrace(base, idx uint64, small bool) (*SchedTrace, sched.Policy, uin
 type shared struct {
 	S []*edwards25519.Scalar
 	P []*edwards25519.Point
+	// E: shared read-only field elements (the y coordinates of the shared points),
+	// half of them in an unreduced representation of the same value
+	E []*field.Element
 }
 
 func buildShared(t *SchedTrace) (*shared, error) {
@@ -268,7 +274,14 @@ func buildShared(t *SchedTrace) (*shared, error) {
 		if !ok {
 			return nil, fmt.Errorf("shared point: not on the curve")
 		}
-		sh.P = append(sh.P, hist.PointFromAffine(x, y))
+		if k := len(sh.P); k >= 2 {
+			// a projective representation with Z != 1 (a reader that normalises its
+			// receiver in place would write to it)
+			sh.P = append(sh.P, hist.PointFromProjective(x, y, big.NewInt(int64(2*k+1))))
+		} else {
+			sh.P = append(sh.P, hist.PointFromAffine(x, y))
+		}
+		sh.E = append(sh.E, hist.ElemFromInt(y, len(sh.E)%2 == 1))
 	}
 	return sh, nil
 }
@@ -444,10 +457,16 @@ func runProgram(prog []TOp, sh *shared, out *[]string) {
 				extra = " s=" + hx(s.Bytes()) + " cl=" + hx(cl.Bytes()) + " eq=" + strconv.Itoa(cn.Equal(s)) + "/" + strconv.Itoa(a.Equal(b))
 				recv = edwards25519.NewIdentityPoint()
 			case "ElementSweep":
+				// (from the affine coordinates: the projective representation a
+				// point operation leaves behind is not part of its result)
 				X, Y, Z, T := pt(op.P[0]).ExtendedCoordinates()
-				var a, b, c field.Element
+				var zi, a, b, c field.Element
+				zi.Invert(Z)
+				X.Multiply(X, &zi)
+				Y.Multiply(Y, &zi)
+				T.Multiply(T, &zi)
 				a.Square(X).Mult32(&a, 121666).Add(&a, Y)
-				b.Pow22523(Z)
+				b.Pow22523(Y)
 				c.Select(&a, &b, T.IsNegative())
 				a.Swap(&b, 1)
 				w, _ := new(field.Element).SetWideBytes(append(a.Bytes(), b.Bytes()...))
@@ -457,6 +476,20 @@ func runProgram(prog []TOp, sh *shared, out *[]string) {
 				z.Zero()
 				o.One()
 				extra = " a=" + hx(a.Bytes()) + " b=" + hx(b.Bytes()) + " c=" + hx(c.Bytes()) + " w=" + hx(w.Bytes()) + " eq=" + strconv.Itoa(z.Equal(&o)) + "/" + strconv.Itoa(a.Equal(&b))
+				recv = edwards25519.NewIdentityPoint()
+			case "SharedElements":
+				// read-only use of field elements that other tasks are reading too
+				e, f := sh.E[op.P[0]%len(sh.E)], sh.E[op.P[1]%len(sh.E)]
+				var a, b, c field.Element
+				a.Add(e, f)
+				b.Multiply(e, f)
+				a.Subtract(&a, &b)
+				b.Invert(e)
+				c.Select(e, f, e.IsNegative())
+				c.Negate(&c).Square(&c)
+				r, wasSq := new(field.Element).SqrtRatio(e, f)
+				extra = " e=" + hx(e.Bytes()) + " f=" + hx(f.Bytes()) + " a=" + hx(a.Bytes()) + " b=" + hx(b.Bytes()) + " c=" + hx(c.Bytes()) +
+					" sqrt=" + hx(r.Bytes()) + "/" + strconv.Itoa(wasSq) + " eq=" + strconv.Itoa(e.Equal(f)) + "/" + strconv.Itoa(f.Equal(f))
 				recv = edwards25519.NewIdentityPoint()
 			case "MultiMany":
 				var ss []*edwards25519.Scalar
@@ -498,6 +531,9 @@ func freshShared(sh *shared) *shared {
 	}
 	for _, p := range sh.P {
 		out.P = append(out.P, new(edwards25519.Point).Add(p, off))
+	}
+	for _, e := range sh.E {
+		out.E = append(out.E, new(field.Element).Add(e, new(field.Element).One()))
 	}
 	return out
 }
@@ -544,6 +580,9 @@ func rawShared(sh *shared) []byte {
 	for _, p := range sh.P {
 		r := alpha.PointLimbs(p)
 		b = append(b, fmt.Sprint(r)...)
+	}
+	for _, e := range sh.E {
+		b = append(b, fmt.Sprint(alpha.ElemLimbs(e))...)
 	}
 	return b
 }
